@@ -31,7 +31,7 @@ ASSUMPTIONS = [
     "a recomputed loss within 1e-12 relative of the recorded one counts as equal (BLAS summation order may depend on buffer alignment); counted as loss_ulp_wobble",
     "third-party estimator failures on extreme histories end the run early (counted), they are C11's subject, not C02's",
 ]
-REQUIRED_COUNTERS = {"model_invocations_matched": 200, "runs_with_repeated_proposals": 5, "runs_with_tied_losses": 4, "runs": 30, "rows_checked": 200, "members_decoded": 300, "losses_recomputed": 200, "snapshots": 100,
+REQUIRED_COUNTERS = {"rl_scheduled_runs": 5, "failed_batches_then_continued": 5, "model_invocations_matched": 200, "runs_with_repeated_proposals": 5, "runs_with_tied_losses": 4, "runs": 30, "rows_checked": 200, "members_decoded": 300, "losses_recomputed": 200, "snapshots": 100,
                      "multi_call_runs": 10, "extreme_runs": 5, "tile_repeat_distinguishable": 5}
 SHARDS = {"quick": 16, "thorough": 16}
 SHARD_WATCHDOG = {"quick": 1500, "thorough": 10800}
@@ -55,11 +55,21 @@ def run_case(desc, ctx):
     cheap = desc["i"] % 3 != 0
     plainish = model in ("plain", "mut", "slow")
     kinds = G.CHEAP + ["XGBoost"] if (cheap or not plainish) else None
-    cfg = CG.gen_config(rng, kinds=kinds, model=model, max_bs=4, n_samplers=int(rng.integers(1, 6)),
+    rl = desc["i"] % 6 == 4 and n_jobs == 1 and plainish      # the RL scheduler designates the samplers (bootstrap Halton first, then the agent's choices)
+    cfg = CG.gen_config(rng, kinds=(["RandomUniform", "RSequence", "ParticleSwarm", "Halton"] if rl else kinds), model=model, max_bs=4, n_samplers=int(rng.integers(1, 6)),
+                        scheduler="rl" if rl else None,
                         loss_kinds=["minkowski"] if tied else (["minkowski", "minkowski", "msm", "fourier"] if not plainish else None),
                         **({"max_points": 3, "max_params": 2} if tiny else {}))
     if not plainish and rng.random() < 0.7:  # make sure a history reader meets the extreme losses
         cfg["lineup"].append(G.gen_sampler_desc(rng, str(rng.choice(["XGBoost", "BestBatch", "ParticleSwarm"])), batch_size=1))
+    if rl:
+        seen_h = False
+        for d_ in cfg["lineup"]:
+            if d_["kind"] == "Halton":
+                if seen_h:
+                    d_["kind"] = "RSequence"
+                seen_h = True
+        c["rl_scheduled_runs"] = 1
     calls = [int(x) for x in rng.integers(1, 4, size=int(rng.integers(1, 5)))]
     wit = {"config": cfg, "calls": calls, "n_jobs": n_jobs, "user_loss_with_ties": tied}
     model_fn = CG.model_for(cfg)
@@ -96,12 +106,29 @@ def run_case(desc, ctx):
                 used = bool(rng.random() < 0.5)
                 with quiet():
                     if used:
-                        other = CG.build_calibrator(cfg)
-                        other.set_scheduler(sch)
-                        other.calibrate(int(rng.integers(1, 4)))
+                        try:
+                            other = CG.build_calibrator(cfg)
+                            other.set_scheduler(sch)
+                            other.calibrate(int(rng.integers(1, 4)))
+                        except Exception:  # noqa: BLE001   (e.g. a loss that refuses non-finite series: the scheduler has served anyway)
+                            pass
                     cal.set_scheduler(sch)
                 wit.setdefault("set_scheduler_before_call", {})[ci] = {"lineup": [d["kind"] for d in new], "served_another_calibrator_before": used}
                 c["set_scheduler_between_calls"] = c.get("set_scheduler_between_calls", 0) + 1
+            if ci > 0 and counting is not None and rng.random() < 0.2:
+                # one batch fails in the model (nothing of it may be recorded), then the run simply goes on
+                good = cal.model
+                cal.model = M.FailAtCall(cfg["D"], 0)
+                try:
+                    with quiet():
+                        cal.calibrate(1)
+                except M.InjectedFault:
+                    c["failed_batches_then_continued"] = c.get("failed_batches_then_continued", 0) + 1
+                    wit.setdefault("a_batch_failed_before_call", []).append(ci)
+                except Exception:  # noqa: BLE001
+                    pass
+                finally:
+                    cal.model = good
             try:
                 with quiet(), G.time_limit(G.LIMIT):
                     cal.calibrate(n)
